@@ -27,6 +27,18 @@ SYM = {'Add': '+', 'Sub': '-', 'Mult': '*', 'Div': '/', 'FloorDiv': '//', 'Mod':
 CTX = [('plain', '%s'), ('neg', '-(%s)'), ('pow1', '(%s)**1'), ('cls', '(%s).__class__'), ('item', '[%s][0]'), ('call', '(lambda v: v)(%s)'),
        ('pair', '(%s, %s)'), ('fstr', 'f"{%s}"'), ('lam', '(lambda: %s)()'), ('ifexp', '%s if 1 else 0'), ('cmp', '(%s) is None'),
        ('key', '{(%s): 1}.popitem()[0]'), ('default', '(lambda p=%s: p)()'), ('not', 'not (%s)'), ('sub', '[0, 1, 2][%s:]')]
+# whole-module contexts in which the expression occurs three times in positions other transforms care about (defaults and decorators are evaluated
+# outside the function they are written in; a result that is True / False / None may be hoisted): run under the DEFAULT options against the defaults
+# without folding, so that folding is observed together with hoisting and renaming
+INTERPLAY = [('defaults3', 'def f(a=%s, b=%s, c=%s): return (a, b, c)\nr = f()\n'),
+             ('kwdefaults3', 'def f(*, a=%s, b=%s, c=%s): return (a, b, c)\nr = f()\n'),
+             ('decorator3', 'def d(*v):\n    return lambda fn: v\n@d(%s, %s, %s)\ndef r(): pass\n'),
+             ('lambda3', 'r = [(lambda: %s)(), (lambda: %s)(), (lambda: %s)()]\n'),
+             ('comp3', 'r = [[%s for _ in [0]], [%s for _ in [0]], [%s for _ in [0]]]\n'),
+             ('class3', 'class K:\n    a = %s\n    b = %s\n    c = %s\nr = (K.a, K.b, K.c)\n'),
+             ('nested3', 'def outer():\n    def inner(a=%s, b=%s):\n        return (a, b, %s)\n    return inner()\nr = outer()\n')]
+DEFAULTS_ON = {}
+DEFAULTS_NOFOLD = {'constant_folding': False}
 FOLD_ON = {'constant_folding': True, 'hoist_literals': False, 'rename_locals': False}
 FOLD_OFF = {'constant_folding': False, 'hoist_literals': False, 'rename_locals': False}
 
@@ -111,11 +123,16 @@ def run(args, rep):
                     continue          # every cell in the plain context, a quarter of them in each other context
                 src = 'r = ' + (ct.replace('%s', '(' + e + ')') if cn != 'plain' else e) + '\n'
                 todo.append((eid + '|' + cn + '|' + v, src, rt, table and cn == 'plain' and v != '2.7'))
+            if v != '2.7' and eid.startswith('cell:') and (rt == 'bool' or sum(map(ord, eid)) % (40 if args.tier == 'quick' else 4) == 0):
+                for cn, ct in INTERPLAY:
+                    todo.append((eid + '|' + cn + '|' + v, ct.replace('%s', '(' + e + ')'), rt, False))
         reqs = []
+        inter = set(cn for cn, _ct in INTERPLAY)
         for rid, src, rt, table in todo:
             b = inputs.b64(src.encode('utf-8'))
-            reqs.append({'op': 'minify', 'id': 'on:' + rid, 'src_b64': b, 'as_bytes': False, 'opts': FOLD_ON})
-            reqs.append({'op': 'minify', 'id': 'off:' + rid, 'src_b64': b, 'as_bytes': False, 'opts': FOLD_OFF})
+            whole = rid.rsplit('|', 2)[1] in inter
+            reqs.append({'op': 'minify', 'id': 'on:' + rid, 'src_b64': b, 'as_bytes': False, 'opts': DEFAULTS_ON if whole else FOLD_ON})
+            reqs.append({'op': 'minify', 'id': 'off:' + rid, 'src_b64': b, 'as_bytes': False, 'opts': DEFAULTS_NOFOLD if whole else FOLD_OFF})
         res = pool.run_requests(v, reqs, timeout=120)
         # evaluate input and output in the same interpreter, batched
         ev_reqs = []
